@@ -1007,14 +1007,25 @@ func (w *world) dbGet(st sim.Step) {
 // acknowledged, so the record may be absent or unreadable; the read must
 // still return. A read that "succeeds" with bytes that are no record is
 // counted (probe), not reported: the property promises nothing for such a
-// key. Only failures that left the length prefix intact are read: with a cut
-// prefix the shipped Read takes the bytes of the next record for a length and
-// allocates up to 2 GiB, whose cost is not repeatable (NOTES.md).
+// key. Only failures that left the length prefix (and, in a compressed DB,
+// the zstd frame header: at most 18 bytes) intact are read: past a cut prefix
+// or frame header the shipped Read takes bytes of the next record for a length
+// resp. a content size, and then allocates gigabytes, fails, or panics in
+// make / in gozstd depending on those bytes - the cost is not repeatable
+// (NOTES.md, replay_failed_write_key_read_panic.json). VERIF_STORE_READ_FAILED_ALL=1
+// lifts the restriction for investigation.
 func (w *world) dbGetFailed(g *dbGen, sel int) {
 	tr := w.tr
+	minCut := int64(4)
+	if w.compress {
+		minCut = 4 + 18
+	}
+	if os.Getenv("VERIF_STORE_READ_FAILED_ALL") != "" {
+		minCut = 0
+	}
 	var cand []string
 	for _, k := range g.failOrd {
-		if _, acked := g.recs[k]; !acked && g.failed[k] >= 4 {
+		if _, acked := g.recs[k]; !acked && g.failed[k] >= minCut {
 			cand = append(cand, k)
 		}
 	}
@@ -1079,7 +1090,7 @@ func (w *world) dbReadAll() {
 		tr.Outcome("readall/skip")
 		return
 	}
-	if g.partial {
+	if g.partial && os.Getenv("VERIF_STORE_READ_FAILED_ALL") == "" {
 		// ReadAll parses the data file front to back and so runs into the bytes
 		// of the failed write; what it does there is not repeatable (see NOTES.md)
 		tr.Probe("readall_skipped_after_partial_write")
